@@ -28,6 +28,7 @@ import (
 	"github.com/rulego/streamsql/utils/cast"
 
 	"github.com/rulego/streamsql/types"
+	"github.com/rulego/streamsql/verifhook"
 )
 
 // debugLogSliding logs debug information only when EnableDebug is true
@@ -173,6 +174,9 @@ func (sw *SlidingWindow) Add(data any) {
 	// Lock to ensure thread safety
 	sw.mu.Lock()
 	defer sw.mu.Unlock()
+	defer func() {
+		verifhook.At("sw.add", sw, int64(len(sw.data)), slotStartMs(sw.currentSlot), int64(len(sw.triggeredWindows)))
+	}()
 
 	// Extract event timestamp; event-time drops rows without one instead of
 	// silently substituting wall-clock time (which corrupts watermark/placement).
@@ -408,7 +412,9 @@ func (sw *SlidingWindow) startEventTime() {
 			for {
 				select {
 				case watermarkTime := <-sw.watermark.WatermarkChan():
+					verifhook.At("sw.trig", sw, watermarkTime.UnixMilli(), 0, 0)
 					sw.checkAndTriggerWindows(watermarkTime)
+					verifhook.At("sw.trigdone", sw, watermarkTime.UnixMilli(), 0, 0)
 				case <-sw.ctx.Done():
 					return
 				}
@@ -590,12 +596,14 @@ func (sw *SlidingWindow) triggerSpecificWindowLocked(slot *types.TimeSlot) {
 
 	// Release lock before calling callback and sending to channel to avoid blocking
 	sw.mu.Unlock()
+	verifhook.At("sw.fired", sw, slot.End.UnixMilli(), int64(len(resultData)), 0)
 
 	if callback != nil {
 		callback(resultData)
 	}
 
 	sw.sendResult(resultData)
+	verifhook.At("sw.sent", sw, slot.End.UnixMilli(), int64(len(resultData)), 0)
 
 	// Re-acquire lock to update statistics
 	sw.mu.Lock()
@@ -930,6 +938,7 @@ func (sw *SlidingWindow) triggerLateUpdateLocked(slot *types.TimeSlot) {
 
 	// Release lock before calling callback and sending to channel to avoid blocking
 	sw.mu.Unlock()
+	verifhook.At("sw.late", sw, slot.End.UnixMilli(), int64(len(resultData)), 0)
 
 	if callback != nil {
 		callback(resultData)
